@@ -53,6 +53,12 @@ AXf == [simple |-> {Eff, Y([k |-> "var", n |-> "k"]), PullIt},
         inits |-> {None}, posts |-> {None}, conds |-> {T0}, ifinits |-> {None},
         kinds |-> {"if", "switch", "range"}, jumps |-> {"break", "continue", "return"},
         ranges |-> {[k |-> "range", id |-> 0, kind |-> "iter", xf |-> "var", kf |-> kf, vf |-> "none", wrap |-> "none", body |-> <<>>] : kf \in {"def", "none"}}]
+\* generators of generators (C14, C11): the yielded values are iterators (fresh instances of the delegates 2, 3),
+\* consumed by the flattening round-robin consumer GGStep of CoSource
+YG(g, arg) == [k |-> "ygen", g |-> g, arg |-> arg]
+AGG == [simple |-> {Eff, IncA, YG(2, VarA), YG(3, [k |-> "lit", v |-> 1])},
+        inits |-> {None}, posts |-> {None, YG(3, [k |-> "lit", v |-> 1])}, conds |-> {T0}, ifinits |-> {None},
+        kinds |-> {"if", "for"}, jumps |-> {"break"}, ranges |-> {}]
 APanic == [ACtl EXCEPT !.simple = @ \cup {[k |-> "panic"], Y([k |-> "b1", e |-> [k |-> "lit", v |-> 7]])},
                         !.posts = @ \cup {Y([k |-> "b1", e |-> [k |-> "lit", v |-> 7]])}]     \* a panicking (yielding) post statement
 \* the control-flow family with every switch form: default first / no default, type switch, tag-less switch
@@ -145,7 +151,7 @@ ARScope == [ARange EXCEPT !.simple = {Y(VarK), Y(VarV)},
                           !.ranges = {RangeHdr("slice", "var", f[1], f[2]) :
                                         f \in {<<"asg", "asg">>, <<"blank", "asg">>, <<"asg", "none">>, <<"def", "def">>, <<"blank", "def">>}}]
 ARangeX == [ARange EXCEPT !.simple = @ \cup {Mut("nset", 0), Mut("strset", 0), Mut("sset", 0), Mut("aset", 0)}]
-A == CASE Family = "range" -> ARange [] Family = "rscope" -> ARScope [] Family = "rangex" -> ARangeX [] Family = "ctl" -> ACtl [] Family = "scope" -> AScope [] Family = "yf" -> AYf [] Family = "xf" -> AXf [] Family = "indep" -> AIndep [] Family = "yfl" -> AYfL [] Family = "panic" -> APanic [] Family = "ctlx" -> ACtlX [] Family = "eff" -> AEff [] Family = "expr" -> AExpr [] Family = "jump" -> AJump [] Family = "opt" -> AOpt [] Family = "by" -> ABy [] Family = "optx" -> AOptX [] Family = "byx" -> AByX [] Family = "unsup" -> AUnsup [] Family = "box" -> ABox [] Family = "lit" -> ALit
+A == CASE Family = "range" -> ARange [] Family = "rscope" -> ARScope [] Family = "rangex" -> ARangeX [] Family = "ctl" -> ACtl [] Family = "scope" -> AScope [] Family = "yf" -> AYf [] Family = "xf" -> AXf [] Family = "indep" -> AIndep [] Family = "gg" -> AGG [] Family = "yfl" -> AYfL [] Family = "panic" -> APanic [] Family = "ctlx" -> ACtlX [] Family = "eff" -> AEff [] Family = "expr" -> AExpr [] Family = "jump" -> AJump [] Family = "opt" -> AOpt [] Family = "by" -> ABy [] Family = "optx" -> AOptX [] Family = "byx" -> AByX [] Family = "unsup" -> AUnsup [] Family = "box" -> ABox [] Family = "lit" -> ALit
 
 \* Go scoping: `a := ...` at most once per block and never in the function's top block
 \* (a is a parameter there: "no new variables on left side of :=")
@@ -221,15 +227,18 @@ Init == /\ \/ \E raw \in Small : \E fin \in Finish(raw) : prog = Label(fin)
         /\ wb = Start(prog, tape0, OpenFlags)
         /\ calls = 0 /\ obs = <<>> /\ obsB = <<>>
 
-Event(w0, r) == [op |-> "next", ok |-> r.ok, cur |-> r.w.cos[1].cur, panic |-> r.w.panic, effs |-> NewLog(w0, r.w)]
+\* one call of the consumer: it.MoveNext() on instance 1, or (family gg) one MoveNext of the flattening consumer
+AdvF(x) == IF Family = "gg" THEN GGStep(x, 0)
+           ELSE LET r == Adv(1, x) IN [ok |-> r.ok, cur |-> r.w.cos[1].cur, w |-> r.w]
+Event(w0, r) == [op |-> "next", ok |-> r.ok, cur |-> r.cur, panic |-> r.w.panic, effs |-> NewLog(w0, r.w)]
 MoveNext ==
   /\ calls < MaxCalls /\ ~(Panicked(w) /\ Panicked(wb))
-  /\ LET r == Adv(1, w) IN
+  /\ LET r == AdvF(w) IN
      /\ w' = IF Panicked(w) THEN w ELSE r.w
      /\ obs' = IF Panicked(w) THEN obs ELSE Append(obs, Event(w, r))
      /\ IF OpenFlags = {}
         THEN wb' = w' /\ obsB' = obs'
-        ELSE LET b == Adv(1, wb) IN
+        ELSE LET b == AdvF(wb) IN
              /\ wb' = IF Panicked(wb) THEN wb ELSE b.w
              /\ obsB' = IF Panicked(wb) THEN obsB ELSE Append(obsB, Event(wb, b))
   /\ calls' = calls + 1 /\ UNCHANGED <<prog, tape0, plen>>
@@ -240,7 +249,7 @@ NoSpin == w.panic # "spin" /\ wb.panic # "spin"
 \* C02 at the level of the reference: creating an instance performs no effect
 LazyStart == calls = 0 => w.log = <<>>
 \* C09 fragment for source coroutines: exhaustion is permanent, current is zero when done
-DoneStaysDone == [][w.cos[1].done => (w'.cos[1].done /\ w'.log = w.log /\ w'.cos[1].cur = Zero)]_vars
+DoneStaysDone == [][(Family # "gg" /\ w.cos[1].done) => (w'.cos[1].done /\ w'.log = w.log /\ w'.cos[1].cur = Zero)]_vars
 
 Done == calls = MaxCalls \/ (Panicked(w) /\ Panicked(wb))
 Emit == Done => PrintT(ToJson([fam |-> Family, prog |-> prog, tape |-> tape0, plen |-> plen, ideal |-> obs,
